@@ -1,6 +1,7 @@
 package main
 
 import (
+	"fmt"
 	"go/ast"
 	"go/token"
 	"strings"
@@ -279,6 +280,8 @@ func genRepo(c *ctx, out string) {
 	l.p("def crlCandidatesSkipEndEntity : Bool := %v", strip)
 	l.p("/-- crlrepository.go:verifyCRLSignature — candidates whose key usage lacks cRLSign are skipped. -/")
 	l.p("def crlSignKeyUsageChecked : Bool := %v", ku)
+	// candidate selection rules of FindCertificateIssuerCandidates when the authority key identifier is present
+	genCandRules(c, l)
 	// background spawn condition
 	spawn := hasCond(chk, "added&&c.crlConfig.CDPConfig.CRLFetchModeParsed==config.CRLFetchModeBackground")
 	l.p("def backgroundSpawnOnAdd : Bool := %v", spawn)
@@ -340,4 +343,100 @@ func genRepo(c *ctx, out string) {
 	l.p("def swapHoldsWriteLock : Bool := %v", swapLocked && firstLoadLocked && bgLoadLocked)
 	l.write(out)
 	c.facts["repo"] = map[string]interface{}{"strictOnly": gateStrictOnly, "stored": stored}
+}
+
+
+// genCandRules reads the if / else-if chain that picks the selection rule from the fields of the authority key identifier:
+// which rule is tried in which order and which fields each one requires to be present. A rule that dereferences a field it
+// did not require is a nil dereference in Go; the model turns that into its `panic` outcome.
+func genCandRules(c *ctx, l *leanFile) {
+	const rel = "core/certificatechains.go"
+	fd := c.funcDecl(rel, "", "FindCertificateIssuerCandidates")
+	var chain *ast.IfStmt
+	ast.Inspect(fd.Body, func(n ast.Node) bool {
+		if ifs, ok := n.(*ast.IfStmt); ok && chain == nil {
+			if _, isCall := ifs.Body.List[len(ifs.Body.List)-1].(*ast.ReturnStmt); isCall && strings.Contains(exprStr(ifs.Cond), "authorityKeyIdentifier.") {
+				chain = ifs
+			}
+		}
+		return true
+	})
+	if chain == nil {
+		fail("%s: FindCertificateIssuerCandidates: rule selection chain not found", c.pos(fd))
+	}
+	type rule struct {
+		name  string
+		needs []string
+	}
+	var rules []rule
+	noRuleErr := false
+	for cur := ast.Stmt(chain); cur != nil; {
+		ifs, ok := cur.(*ast.IfStmt)
+		if !ok {
+			blk, isBlk := cur.(*ast.BlockStmt)
+			if !isBlk || len(blk.List) != 1 || !strings.HasPrefix(c.src(blk.List[0]), "return nil, errors.New(") {
+				fail("%s: FindCertificateIssuerCandidates: final branch is not `return nil, errors.New(..)`", c.pos(cur))
+			}
+			noRuleErr = true
+			break
+		}
+		if len(ifs.Body.List) != 1 {
+			fail("%s: FindCertificateIssuerCandidates: rule branch is not a single return", c.pos(ifs))
+		}
+		ret := c.src(ifs.Body.List[0])
+		var r rule
+		switch {
+		case strings.HasPrefix(ret, "return findCertificateBySerialAndIssuer("):
+			r.name = "serial+issuer"
+		case strings.HasPrefix(ret, "return findCertificateCandidatesFromKeyIdentifier("):
+			r.name = "keyid"
+		default:
+			fail("%s: FindCertificateIssuerCandidates: unrecognised rule: %s", c.pos(ifs), ret)
+		}
+		for _, cj := range strings.Split(exprStr(ifs.Cond), "&&") {
+			switch cj {
+			case "authorityKeyIdentifier.AuthorityCertSerialNumber!=nil":
+				r.needs = append(r.needs, "serial")
+			case "authorityKeyIdentifier.KeyIdentifier!=nil", "len(authorityKeyIdentifier.KeyIdentifier)>0":
+				r.needs = append(r.needs, "keyid")
+			case "len(authorityKeyIdentifier.AuthorityCertIssuer.DirectoryName.Bytes)>0":
+				r.needs = append(r.needs, "issuer")
+			case "&authorityKeyIdentifier.AuthorityCertIssuer.Raw!=nil":
+				// the address of a field is never nil: no requirement
+			default:
+				fail("%s: FindCertificateIssuerCandidates: unrecognised condition %s", c.pos(ifs), cj)
+			}
+		}
+		if r.name == "keyid" {
+			has := false
+			for _, n := range r.needs {
+				has = has || n == "keyid"
+			}
+			if !has {
+				fail("%s: FindCertificateIssuerCandidates: the key identifier rule does not require a key identifier", c.pos(ifs))
+			}
+		}
+		rules = append(rules, r)
+		cur = ifs.Else
+		if cur == nil {
+			break
+		}
+	}
+	// inside the serial+issuer rule: the serial is compared first (dereferenced), the name only when present
+	bs := c.funcDecl(rel, "", "findCertificateBySerialAndIssuer")
+	if !hasCond(bs, "certCandidate.Certificate.SerialNumber.Cmp(identifier.AuthorityCertSerialNumber)==0") || !hasCond(bs, "len(identifier.AuthorityCertIssuer.DirectoryName.Bytes)>0") {
+		fail("%s: findCertificateBySerialAndIssuer: serial comparison / name guard not recognised", c.pos(bs))
+	}
+	var parts []string
+	for _, r := range rules {
+		qs := make([]string, len(r.needs))
+		for i, n := range r.needs {
+			qs[i] = leanStr(n)
+		}
+		parts = append(parts, fmt.Sprintf("(%s, [%s])", leanStr(r.name), strings.Join(qs, ", ")))
+	}
+	l.p("/-- certificatechains.go:FindCertificateIssuerCandidates — with an authority key identifier present: the selection rules in the")
+	l.p("order they are tried, each with the fields its guard requires to be present (`serial`, `issuer`, `keyid`); no rule applies => error. -/")
+	l.p("def candRules : List (String × List String) := [%s]", strings.Join(parts, ", "))
+	l.p("def candNoRuleIsError : Bool := %v", noRuleErr)
 }
